@@ -1,5 +1,5 @@
 (* C19 — what the correspondence check evaluates on every case. *)
-From Yv Require Export Common.Base C19.Model C19.Spec.
+From Yv Require Export Common.Base C19.Model C19.Spec C19.Wait.
 
 (* One case is either
      - a system-call sequence with what VirtualSystem and RealSystem showed, or
@@ -9,7 +9,10 @@ Inductive case :=
 | CScript (v r : scriptobs)
   (* a script of real built-ins only: simulated OS, the harness's shell on the
      real OS, and the yash3 binary built from /repo on the real OS *)
-| CScript3 (v r y : scriptobs).
+| CScript3 (v r y : scriptobs)
+  (* several children alive together: the results of the parent's calls on the
+     simulated and on the real OS (Wait.v) *)
+| CWait (ops : list wop) (v r : list wres).
 
 Definition has_out (l : list res) : bool :=
   existsb (fun x => match x with ROut => true | _ => false end) l.
@@ -22,6 +25,8 @@ Definition sysobs_eqb (a b : sysobs) : bool :=
   list_eqb res_eqb (so_res a) (so_res b) &&
   tree_eqb (so_tree a) (so_tree b) &&
   list_eqb str_eqb (so_std a) (so_std b).
+
+Definition wmodel_obs (ops : list wop) : list wres := snd (wrun winit ops).
 
 Definition run_case (c : case) : verdict :=
   match c with
@@ -53,6 +58,17 @@ Definition run_case (c : case) : verdict :=
           | Some _ => 25%N
           | None => 0%N
           end
+      end
+  | CWait ops v r =>
+      let m := wmodel_obs ops in
+      match wait_oracle v r with
+      | Some k =>
+          if list_eqb wres_eqb m r then (2 + k)%N
+          else if list_eqb wres_eqb m v then (30 + k)%N
+          else (60 + k)%N
+      | None =>
+          if whas_out m then 99%N
+          else if list_eqb wres_eqb m v then 0%N else 1%N
       end
   end.
 
